@@ -19,7 +19,7 @@
    (u8::hash -> write_u8).  Constants, operators, arms and field lists come
    from C04/Gen.v (T1). *)
 From Coq Require Import NArith Arith List Bool.
-From DV Require Import Base.Outcome Base.Bytes Base.Lex Base.Names Base.PName C04.Gen.
+From DV Require Import Base.Outcome Base.Bytes Base.Lex Base.Names Base.PName C17.Model C04.Gen.
 Import ListNotations.
 Local Open Scope N_scope.
 
@@ -600,6 +600,20 @@ Fixpoint chain_cmp (fs : list N) (a b : crec) : comparison :=
   end.
 Definition m_record_canonical_cmp := chain_cmp record_canonical_fields.
 
+(* PartialOrd written apart from Ord (ZONEMD serial, RRSIG timestamps, NSEC3
+   salt / next owner): a 32 bit field compared either as an integer or in
+   serial number arithmetic (Serial::partial_cmp, model from C17), a length
+   prefixed piece either length first or as plain octets.  Which one is read
+   from the source (T1). *)
+Definition u32_partial_gen (serial_arith : bool) (a b : N) : option comparison :=
+  if serial_arith then match serial_partial_cmp a b with Ok r => r | _ => None end
+  else Some (a ?= b).
+Definition pfx_partial_gen (len_first : bool) (a b : bytes) : option comparison :=
+  Some (if len_first then then_cmp (len_cmp a b) (lex_cmp a b) else lex_cmp a b).
+Definition m_zonemd_serial_partial := u32_partial_gen zonemd_partial_serial_arith.
+Definition m_rrsig_time_partial := u32_partial_gen rrsig_partial_serial_arith.
+Definition m_nsec3_salt_partial := pfx_partial_gen nsec3_partial_len_first.
+
 (* RecordHeader<N>: Eq / Ord over header_eq_fields / header_cmp_fields
    (owner=1 with name_eq / name_cmp, rtype=5, class=2, ttl=3, rdlen=6) *)
 Record hdr := mkHdr { h_owner : name; h_rtype : N; h_class : N; h_ttl : N; h_rdlen : N }.
@@ -706,6 +720,9 @@ Definition row_hash (r : rd_row) : list N := let '(_, (_, _, _, h)) := r in h.
 
 (* ------------------------------------------- entry points for the T2 driver *)
 Definition c04_header_cmp := m_header_cmp.
+Definition c04_zonemd_partial := m_zonemd_serial_partial.
+Definition c04_rrsig_partial := m_rrsig_time_partial.
+Definition c04_nsec3_partial := m_nsec3_salt_partial.
 Definition c04_header_eq := m_header_eqb.
 Definition c04_rd_kinds (code : N) : list N :=
   match rd_lookup rd_table code with Some r => row_kinds r | None => [] end.
